@@ -178,6 +178,54 @@ def isPrefixStringCharLiteral (s : Str) (q : Char) (p : Str) : Bool :=
 def isCharLiteral (s : Str) : Bool :=
   [[], ['u', '8'], ['u'], ['U'], ['L']].any (isPrefixStringCharLiteral s '\'')
 
+/-! ## `Token::isCChar` / `isCMultiChar` (lib/token.h) via `replaceEscapeSequences` (lib/utils.cpp)
+
+Only `\n \r \t`, `\x` with at most two hex digits and octal escapes that START WITH `0` are folded into one character;
+any other backslash pair yields its second character — so `'\200'` counts as three characters. -/
+
+def hexNib (c : Char) : Nat := if CharLit.isDigit c then c.toNat - 48 else if 97 ≤ c.toNat then c.toNat - 87 else c.toNat - 55
+
+def replaceEscapeSequencesGo : Nat → Str → Str
+  | 0, _ => []
+  | _, [] => []
+  | _, [c] => [c]                                   -- `i + 1 >= source.size()`
+  | fuel + 1, c :: e :: r =>
+    if c != '\\' then c :: replaceEscapeSequencesGo fuel (e :: r)
+    else if e == 'n' then '\n' :: replaceEscapeSequencesGo fuel r
+    else if e == 'r' then '\r' :: replaceEscapeSequencesGo fuel r
+    else if e == 't' then '\t' :: replaceEscapeSequencesGo fuel r
+    else if e == 'x' then
+      match r with
+      | h1 :: h2 :: r' =>
+        if isXDigit h1 then
+          if isXDigit h2 then Char.ofNat ((hexNib h1 * 16 + hexNib h2) % 256) :: replaceEscapeSequencesGo fuel r'
+          else Char.ofNat (hexNib h1) :: replaceEscapeSequencesGo fuel (h2 :: r')
+        else Char.ofNat 0 :: replaceEscapeSequencesGo fuel r
+      | [h1] => if isXDigit h1 then [Char.ofNat (hexNib h1)] else Char.ofNat 0 :: replaceEscapeSequencesGo fuel r
+      | [] => [Char.ofNat 0]
+    else if e == '0' then
+      match r with
+      | o1 :: o2 :: r' =>
+        if isOctDigit o1 then
+          if isOctDigit o2 then Char.ofNat ((hexNib o1 * 8 + hexNib o2) % 256) :: replaceEscapeSequencesGo fuel r'
+          else Char.ofNat (hexNib o1) :: replaceEscapeSequencesGo fuel (o2 :: r')
+        else Char.ofNat 0 :: replaceEscapeSequencesGo fuel r
+      | [o1] => if isOctDigit o1 then [Char.ofNat (hexNib o1)] else Char.ofNat 0 :: replaceEscapeSequencesGo fuel r
+      | [] => [Char.ofNat 0]
+    else e :: replaceEscapeSequencesGo fuel r
+
+def replaceEscapeSequences (s : Str) : Str := replaceEscapeSequencesGo (s.length + 1) s
+
+/-- `getCharLiteral` for an unprefixed literal: the text between the quotes -/
+def charBody (s : Str) : Str := (s.drop 1).take (s.length - 2)
+
+/-- `Token::isCChar()` of a token whose text is `s` (tokType eChar ⇔ `isCharLiteral s`) -/
+def isCChar (s : Str) : Bool :=
+  isCharLiteral s && isPrefixStringCharLiteral s '\'' [] && (replaceEscapeSequences (charBody s)).length == 1
+
+def isCMultiChar (s : Str) : Bool :=
+  isCharLiteral s && isPrefixStringCharLiteral s '\'' [] && decide ((replaceEscapeSequences (charBody s)).length > 1)
+
 /-! ## conversion -/
 
 inductive Err
